@@ -10,6 +10,11 @@
   valid records whose public-key entries agree have the same node id whatever else they contain
   (sequence number, signature, other pairs).
 
+  Hypotheses: `S.Lawful` (three laws of a key type; proved for the four built-in key types,
+  `k256S_lawful`, `libsecpS_lawful`, `edS_lawful`, `combS_lawful` in `Proofs/SchemeLemmas.lean`)
+  and `CallOK` per call (arguments in range, signer's key shorter than 2^64 bytes — `KeyOK` —,
+  signer's answer verifies); `build` needs `KeyOK` of the signer's key.
+
   Model: `nodeIdOf S pk = S.digest (S.uncompressed pk)`; `Record.publicKey`.
   Lemmas: `Proofs/StepLemmas.lean`, `Props/C05.lean` facts via `step_ok_facts`/`build_ok_facts`.
 -/
